@@ -27,12 +27,18 @@ type CHOp struct {
 	What    string   `json:"what,omitempty"` // rmcache: dir | file
 	// ViaClean: the run is `spok --clean` (which runs the user's task named clean) instead of `spok clean`
 	ViaClean bool `json:"via_clean,omitempty"`
+	// Spokfile: "" = found by climbing from cwd; "abs" / "rel" = named with --spokfile (relative to cwd);
+	// with "home" the invocation is made from $HOME (outside the project) with --spokfile proj/spokfile
+	Spokfile string `json:"spokfile,omitempty"`
 }
 
 // CHCase is one case of scenario cachehist.
 type CHCase struct {
 	Prog  Program           `json:"prog"`
 	Disk  map[string]string `json:"disk"`
+	// Links: dependency files that are symbolic links (path -> target path, both relative to the project root);
+	// the content a task depends on is the content of the target
+	Links map[string]string `json:"links,omitempty"`
 	Ops   []CHOp            `json:"ops"`
 	Sched Sched             `json:"sched"`
 }
@@ -182,6 +188,24 @@ func (cachehist) Gen(r *Rng, cfg GenConfig) any {
 	if cfg.Prop != "nowriters" && r.Chance(1, 5) {
 		addWriter(r, &c.Prog)
 	}
+	if cfg.Prop != "nowriters" && r.Chance(1, 8) {
+		// a dependency that is a symbolic link to another file of the project: editing the TARGET changes
+		// the task's inputs. Link names are never edited or deleted by operations.
+		ln := Pick(r, [][2]string{{"ln.txt", "a.txt"}, {"src/ln.c", "src/x.c"}, {"ln.txt", "src/n.h"}})
+		writes := false
+		for _, t := range c.Prog.Tasks {
+			for _, fw := range t.Writes {
+				if fw.Path == ln[1] {
+					writes = true
+				}
+			}
+		}
+		if !writes {
+			c.Links = map[string]string{ln[0]: ln[1]}
+			ti := r.Intn(len(c.Prog.Tasks))
+			c.Prog.Tasks[ti].Deps = dedupDeps(append(c.Prog.Tasks[ti].Deps, Dep{"file", ln[0]}))
+		}
+	}
 	hasClean := false
 	if (cfg.Prop == "C09" && r.Chance(1, 3)) || (cfg.Prop != "nowriters" && r.Chance(1, 12)) {
 		// the last task (nothing depends on it) becomes the user's clean task
@@ -202,6 +226,9 @@ func (cachehist) Gen(r *Rng, cfg GenConfig) any {
 				}
 			}
 		}
+	}
+	for l := range c.Links {
+		delete(c.Disk, l) // a link is not a file of its own: operations never write or delete it
 	}
 	names := make([]string, len(c.Prog.Tasks))
 	for i, t := range c.Prog.Tasks {
@@ -352,6 +379,9 @@ func (cachehist) Gen(r *Rng, cfg GenConfig) any {
 			if hasClean && r.Chance(1, 3) {
 				op.Tasks, op.ViaClean = []string{"clean"}, true
 			}
+			if r.Chance(1, 10) {
+				op.Spokfile = Pick(r, []string{"abs", "rel", "home"})
+			}
 			c.Ops = append(c.Ops, op)
 		case k < 14: // write (create / edit / revert, contents come from a pool of 3)
 			emit(CHOp{Op: "write", Path: Pick(r, chFiles), Content: Pick(r, chContents)})
@@ -401,6 +431,27 @@ type projState struct {
 	lastFail map[string]bool    // T -> its most recent execution failed
 	logLen   int
 	inv      int
+	links    map[string]string // dependency files that are symbolic links: path -> target path (project relative)
+}
+
+// withLinks adds the symbolic links to a model disk: a link has the content of its target and does
+// not exist (dangling) while the target does not.
+func (s *projState) withLinks(disk map[string]string) map[string]string {
+	if len(s.links) == 0 {
+		return disk
+	}
+	out := make(map[string]string, len(disk)+len(s.links))
+	for k, v := range disk {
+		out[k] = v
+	}
+	for l, t := range s.links {
+		if c, ok := disk[t]; ok {
+			out[l] = c
+		} else {
+			delete(out, l)
+		}
+	}
+	return out
 }
 
 func newProjState(w *World, p *Program, disk map[string]string) *projState {
@@ -471,7 +522,7 @@ func (s *projState) diskAt(n string, v runView) map[string]string {
 		ws = append(ws, s.prog.Task(d).Writes...)
 	}
 	if len(ws) == 0 {
-		return s.disk
+		return s.withLinks(s.disk)
 	}
 	out := make(map[string]string, len(s.disk)+len(ws))
 	for k, val := range s.disk {
@@ -480,7 +531,7 @@ func (s *projState) diskAt(n string, v runView) map[string]string {
 	for _, fw := range ws {
 		out[fw.Path] = fw.Disk()
 	}
-	return out
+	return s.withLinks(out)
 }
 
 type runView struct {
@@ -546,7 +597,7 @@ func runArgs(op CHOp) []string {
 }
 
 func (s *projState) stateClass(t *TaskDef) string {
-	in, n, missing := Inputs(s.prog, t, s.disk)
+	in, n, missing := Inputs(s.prog, t, s.withLinks(s.disk))
 	rel := "never"
 	if l := s.last[t.Name]; l != nil {
 		if *l == in {
@@ -606,7 +657,30 @@ func (cachehist) Exec(w *World, cc any, prop string) *Result {
 		res.count("skipped_ill_formed_case")
 		return res
 	}
+	for _, op := range c.Ops {
+		if _, isLink := c.Links[op.Path]; isLink && (op.Op == "write" || op.Op == "delete") {
+			res.count("skipped_ill_formed_case") // operations address the target of a link, never the link itself
+			return res
+		}
+	}
+	if _, both := c.Disk[firstKey(c.Links)]; both && len(c.Links) > 0 {
+		res.count("skipped_ill_formed_case")
+		return res
+	}
 	s := newProjState(w, &c.Prog, c.Disk)
+	for _, l := range sortedKeys(c.Links) {
+		full := filepath.Join(w.Proj, filepath.FromSlash(l))
+		target, err := filepath.Rel(filepath.Dir(full), filepath.Join(w.Proj, filepath.FromSlash(c.Links[l])))
+		must(err)
+		must(os.MkdirAll(filepath.Dir(full), 0o755))
+		os.Remove(full)
+		must(os.Symlink(target, full))
+		if s.links == nil {
+			s.links = map[string]string{}
+		}
+		s.links[l] = c.Links[l]
+		res.count("fault_present:dependency_is_a_symlink")
+	}
 	s.logDelta()
 	var kinds []string
 	for _, op := range c.Ops {
@@ -671,12 +745,27 @@ func (s *projState) judgeRun(res *Result, sched Sched, forceBefore bool, oi stri
 	if st, err := os.Stat(cwd); err != nil || !st.IsDir() {
 		cwd = w.Proj
 	}
+	args := runArgs(op)
+	switch op.Spokfile {
+	case "abs":
+		args = append(args, "--spokfile", filepath.Join(w.Proj, "spokfile"))
+	case "rel":
+		relp, err := filepath.Rel(cwd, filepath.Join(w.Proj, "spokfile"))
+		must(err)
+		args = append(args, "--spokfile", relp)
+	case "home":
+		cwd = w.Home
+		args = append(args, "--spokfile", filepath.Join("proj", "spokfile"))
+	}
+	if op.Spokfile != "" {
+		res.count("probe:run_with_spokfile_flag")
+	}
 	// state classes before the run (coverage measure)
 	var classes []string
 	for _, n := range closure {
 		classes = append(classes, s.stateClass(s.prog.Task(n)))
 	}
-	obs := w.Invoke(Invocation{Args: runArgs(op), Cwd: cwd, Env: w.BaseEnv(), Inv: s.inv, Sched: sched, Faults: NoFaults()})
+	obs := w.Invoke(Invocation{Args: args, Cwd: cwd, Env: w.BaseEnv(), Inv: s.inv, Sched: sched, Faults: NoFaults()})
 	s.inv++
 	res.Steps += len(obs.Trace)
 	delta := s.logDelta()
@@ -969,6 +1058,9 @@ func (cachehist) Shrinks(cc any) []any {
 		if op.ViaClean {
 			add(func(n *CHCase) { n.Ops[oi].ViaClean = false })
 		}
+		if op.Spokfile != "" {
+			add(func(n *CHCase) { n.Ops[oi].Spokfile = "" })
+		}
 	}
 	// drop initial files
 	for _, f := range sortedKeys(c.Disk) {
@@ -979,6 +1071,9 @@ func (cachehist) Shrinks(cc any) []any {
 	}
 	if c.Prog.Layout != 0 {
 		add(func(n *CHCase) { n.Prog.Layout = 0 })
+	}
+	if len(c.Links) > 0 {
+		add(func(n *CHCase) { n.Links = nil })
 	}
 	return out
 }
@@ -1021,4 +1116,11 @@ func dropTask(n *CHCase, name string) {
 		ops = append(ops, op)
 	}
 	n.Ops = ops
+}
+
+func firstKey(m map[string]string) string {
+	for _, k := range sortedKeys(m) {
+		return k
+	}
+	return ""
 }
